@@ -44,3 +44,4 @@ Proof.
   cbn [patch_loop]. rewrite Hcanp. rewrite Hg1.
   exists (set_entry m1 q (add_assoc (n_name node) e1)), (x :: cs). split; [discriminate|reflexivity].
 Qed.
+
